@@ -22,7 +22,8 @@ def Qualifies (bytes : Bytes) (cfg : Config) (f : Found) : Prop :=
         f.hasNul = false ∧ cfg.strictNul = false ∧ cfg.minLen ≤ f.len) )
 
 /-- executable reference: all qualifying maximal runs, by brute force over start positions
-(used by the driver to print the specification's answer next to the model's). -/
+(used by the driver to print the specification's answer next to the model's).  That it lists exactly the runs that
+`Qualifies`, in ascending order, and is the enumerator's answer for thresholds ≥ 1: `C20_specAll_exact`. -/
 def runEnd (bytes : Bytes) (s : Nat) : Nat → Nat
   | 0 => s
   | fuel+1 => if s < bytes.size ∧ specPrintable (byteAt bytes s) then runEnd bytes (s+1) fuel else s
@@ -56,5 +57,19 @@ def stepOp (bytes : Bytes) (cfg : Config) (off : Nat) : Op → Res Found × Nat
 def runOps (bytes : Bytes) (cfg : Config) : Nat → List Op → List (Res Found)
   | _, [] => []
   | off, o :: os => (stepOp bytes cfg off o).1 :: runOps bytes cfg (stepOp bytes cfg off o).2 os
+
+/-- one call on the enumerator object over an arbitrary transition `nx` (Model/Strings.lean: `stepW`, `nthW`, `countW`,
+`itemsW`; the provided `size_hint` is `(0, None)`) -/
+def stepOpW (nx : Nat → Option (Found × Nat)) (fuel off : Nat) : Op → Out (Res Found × Nat)
+  | .next => .ok (.item (stepW nx off).1, (stepW nx off).2)
+  | .nth n => .ok (.item (nthW nx off n).1, (nthW nx off n).2)
+  | .sizeHint => .ok (.hint 0 none, off)
+  | .count => countW nx fuel off 0 >>= fun n => .ok (.num n, off)
+  | .clone => itemsW nx fuel off >>= fun l => .ok (.list l, off)
+
+/-- a whole call history on it -/
+def runOpsW (nx : Nat → Option (Found × Nat)) (fuel : Nat) : Nat → List Op → Out (List (Res Found))
+  | _, [] => .ok []
+  | off, o :: os => stepOpW nx fuel off o >>= fun r => runOpsW nx fuel r.2 os >>= fun rs => .ok (r.1 :: rs)
 
 end Pelite.Strings
